@@ -13,14 +13,15 @@ import (
 )
 
 type c16Case struct {
-	Mode  string `json:"mode"`           // layout, scan, mutate
-	Len   int    `json:"len"`            // residue count
-	Alpha string `json:"alpha"`          // residues are Alpha repeated cyclically
-	Pos   int    `json:"pos,omitempty"`  // mutate: byte offset inside the block
-	Op    string `json:"op,omitempty"`   // mutate: "del", "dup", "set", "swap" (with the next byte)
-	Byte  int    `json:"byte,omitempty"` // mutate: replacement byte for "set"
-	Pad   int    `json:"pad,omitempty"`  // scan: extra characters in the definition (shifts the ORIGIN block in the stream)
-	Lens  []int  `json:"lens,omitempty"` // stream: residue counts of the records of one stream (record k uses Alpha rotated by k)
+	Mode  string `json:"mode"`            // layout, scan, mutate
+	Len   int    `json:"len"`             // residue count
+	Alpha string `json:"alpha"`           // residues are Alpha repeated cyclically
+	Pos   int    `json:"pos,omitempty"`   // mutate: byte offset inside the block
+	Op    string `json:"op,omitempty"`    // mutate: "del", "dup", "set", "swap" (with the next byte)
+	Byte  int    `json:"byte,omitempty"`  // mutate: replacement byte for "set"
+	Pad   int    `json:"pad,omitempty"`   // scan: extra characters in the definition (shifts the ORIGIN block in the stream)
+	Deliv int    `json:"deliv,omitempty"` // scan, stream: how the reader hands the bytes over (deliveryNames)
+	Lens  []int  `json:"lens,omitempty"`  // stream: residue counts of the records of one stream (record k uses Alpha rotated by k)
 }
 
 func (c c16Case) residues() []byte {
@@ -71,10 +72,10 @@ type scanResult struct {
 	panic *PanicInfo
 }
 
-func scanOne(text string) scanResult {
+func scanOne(text string, how int) scanResult {
 	var r scanResult
 	r.panic = guard(func() {
-		sc := seqio.NewAutoScanner(strings.NewReader(text))
+		sc := seqio.NewAutoScanner(deliver([]byte(text), how))
 		for sc.Scan() {
 			seq := sc.Value()
 			r.n++
@@ -139,7 +140,7 @@ func c16Check(c c16Case) *Violation {
 		return v
 	case "scan":
 		text := c16RecordPad(c.Len, want, c.Pad)
-		lf, cr := scanOne(text), scanOne(crlf(text))
+		lf, cr := scanOne(text, c.Deliv), scanOne(crlf(text), c.Deliv)
 		for _, x := range []struct {
 			name string
 			r    scanResult
@@ -148,10 +149,10 @@ func c16Check(c c16Case) *Violation {
 				return panicViolation(fmt.Sprintf("scanning a %d-residue record (%s)", c.Len, x.name), x.r.panic)
 			}
 			if !x.r.ok || x.r.n != 1 {
-				return viol("scan", "%s record with %d residues: %d records, error %q", x.name, c.Len, x.r.n, x.r.err)
+				return viol("scan", "%s record with %d residues (reader: %s): %d records, error %q", x.name, c.Len, deliveryNames[c.Deliv%len(deliveryNames)], x.r.n, x.r.err)
 			}
 			if x.r.lens[0] != c.Len || !bytes.Equal(x.r.data, p) {
-				return viol("scan", "%s record with %d residues reads back %d (Len %d), first difference at %d", x.name, c.Len, len(x.r.data), x.r.lens[0], firstDiff(string(x.r.data), string(p)))
+				return viol("scan", "%s record with %d residues (reader: %s) reads back %d (Len %d), first difference at %d", x.name, c.Len, deliveryNames[c.Deliv%len(deliveryNames)], len(x.r.data), x.r.lens[0], firstDiff(string(x.r.data), string(p)))
 			}
 		}
 		return nil
@@ -175,7 +176,7 @@ func c16Check(c c16Case) *Violation {
 			var seqs []gts.Sequence
 			var errText string
 			if pi := guard(func() {
-				sc := seqio.NewAutoScanner(strings.NewReader(variant.text))
+				sc := seqio.NewAutoScanner(deliver([]byte(variant.text), c.Deliv))
 				for sc.Scan() {
 					seqs = append(seqs, sc.Value())
 				}
@@ -186,7 +187,7 @@ func c16Check(c c16Case) *Violation {
 				return panicViolation(fmt.Sprintf("scanning a stream of %v residues (%s)", c.Lens, variant.name), pi)
 			}
 			if errText != "" || len(seqs) != len(c.Lens) {
-				return viol("scan", "%s stream of %v residues: %d records, error %q", variant.name, c.Lens, len(seqs), errText)
+				return viol("scan", "%s stream of %v residues (reader: %s): %d records, error %q", variant.name, c.Lens, deliveryNames[c.Deliv%len(deliveryNames)], len(seqs), errText)
 			}
 			for round := 0; round < 2; round++ {
 				for k, seq := range seqs {
@@ -223,7 +224,7 @@ func c16Check(c c16Case) *Violation {
 			mut[c.Pos] = byte(c.Byte)
 		}
 		text := c16Record(c.Len, string(mut))
-		lf, cr := scanOne(text), scanOne(crlf(text))
+		lf, cr := scanOne(text, 0), scanOne(crlf(text), 0)
 		if lf.panic != nil {
 			return panicViolation(fmt.Sprintf("scanning a mutated %d-residue block (LF, %s at %d)", c.Len, c.Op, c.Pos), lf.panic)
 		}
@@ -385,6 +386,29 @@ func TestC16(t *testing.T) {
 		}
 	}
 	e6.done(true)
+	// deliveries: the same records through readers that hand the bytes over in other portions (one byte at a time, 7,
+	// 4095, 4096+1, half of what is asked for, ragged, last bytes together with io.EOF)
+	e7 := enumPart(t, c16Prop, st, "deliveries")
+	dl := []int{0, 1, 59, 60, 61, 130, 600, 3400, 4000}
+	if thorough() {
+		for n := 2; n <= 400; n++ {
+			dl = append(dl, n)
+		}
+		dl = append(dl, 3000, 3399, 3401, 5000, 9000)
+	}
+	for _, n := range dl {
+		for how := 1; how < len(deliveryNames); how++ {
+			for _, pad := range []int{0, 1, 2, 3, 5, 11} {
+				if !e7.try(c16Case{Mode: "scan", Len: n, Alpha: "acgt", Pad: pad, Deliv: how}) {
+					return
+				}
+			}
+			if !e7.try(c16Case{Mode: "stream", Alpha: "acgt", Lens: []int{n, 61, n % 53, n}, Deliv: how}) {
+				return
+			}
+		}
+	}
+	e7.done(true)
 	// mutate: every byte offset of the block x {delete, duplicate, set to space/letter/digit/newline}
 	e4 := enumPart(t, c16Prop, st, "mutated-blocks")
 	lens := []int{1, 9, 10, 11, 59, 60, 61, 70, 119, 120, 121}
